@@ -12,6 +12,9 @@ func init() {
 	register(&Rule{ID: "C08.R1", Prop: "C08", Floor: 10,
 		Doc: "runtime writes to package-level state: every Store/MapUpdate rooted at a package-level variable, in any module function that is not a package initialiser (or reachable only from one), is either under the registry mutex or a row of the documented embedder-hook table (set before use); anything else is state shared by all contexts and written at run time",
 		Run: runC08R1})
+	register(&Rule{ID: "C10.R7", Prop: "C10", Floor: 2,
+		Doc: "no run-time update of a package-level Go map without a lock: every MapUpdate / delete rooted at a package-level map, in a module function that is not reachable only from package initialisers, holds a mutex — contexts run concurrently, and concurrent writes of one Go map are a fatal error of the runtime that kills the embedding process past every recover barrier (the map-write part of C08.R1, read for its consequence under C10)",
+		Run: func(c *Ctx, r *Rep) { runGlobalWrites(c, r, true) }})
 }
 
 // documented "set once before use" hooks and registration entry points (key: function|global)
@@ -21,7 +24,12 @@ var globalWriteTable = map[string]string{
 	"repl/cli.RunREPL$2|InputHook": "restores the hook when the command-line REPL ends",
 }
 
-func runC08R1(c *Ctx, r *Rep) {
+func runC08R1(c *Ctx, r *Rep) { runGlobalWrites(c, r, false) }
+
+// runGlobalWrites is C08.R1; with mapsOnly it is C10.R7: the run-time updates of package-level Go maps only, for which
+// the consequence is not a stale value but "fatal error: concurrent map writes" — the Go runtime aborts the whole
+// process, and no recover barrier intercepts that.
+func runGlobalWrites(c *Ctx, r *Rep, mapsOnly bool) {
 	fns := moduleFunctions(c)
 	// functions reachable only from init: the synthetic package initialiser and functions named init
 	isInit := func(fn *ssa.Function) bool {
@@ -74,8 +82,19 @@ func runC08R1(c *Ctx, r *Rep) {
 		return res
 	}
 	n := 0
+	alive := 0
 	for _, fn := range fns {
 		if isInit(fn) {
+			if mapsOnly {
+				// the matcher's positive example: map updates of package-level maps inside initialisers
+				for _, b := range fn.Blocks {
+					for _, in := range b.Instrs {
+						if mu, ok := in.(*ssa.MapUpdate); ok && globalRoot(mu.Map) != nil {
+							alive++
+						}
+					}
+				}
+			}
 			continue
 		}
 		if pkgPathOf(fn) == modPath {
@@ -100,8 +119,17 @@ func runC08R1(c *Ctx, r *Rep) {
 					g = globalRoot(x.Map)
 					pos = x.Pos()
 					kind = "map update"
+				case *ssa.Call:
+					if b, ok := x.Call.Value.(*ssa.Builtin); ok && b.Name() == "delete" && len(x.Call.Args) == 2 && mapsOnly {
+						g = globalRoot(x.Call.Args[0])
+						pos = x.Pos()
+						kind = "map delete"
+					}
 				}
 				if g == nil {
+					continue
+				}
+				if mapsOnly && kind == "store" {
 					continue
 				}
 				n++
@@ -115,11 +143,53 @@ func runC08R1(c *Ctx, r *Rep) {
 					r.okTrivial(key, pos, "sanctioned: %s", why)
 					continue
 				}
+				if mapsOnly {
+					if holdsLockAt(c, fn, pos) {
+						r.ok(key, pos, "under a mutex")
+						continue
+					}
+					r.bad(key, pos, "run-time %s of the package-level map %s.%s with no lock held: contexts run concurrently (examples/multi-context), and two goroutines writing one Go map is \"fatal error: concurrent map writes\" — the runtime aborts the whole process, which no recover barrier intercepts", kind, shortPkg(g.Pkg.Pkg.Path()), g.Name())
+					continue
+				}
 				r.bad(key, pos, "run-time %s of package-level variable %s.%s: this state is shared by every context and written outside package initialisation", kind, shortPkg(g.Pkg.Pkg.Path()), g.Name())
 			}
 		}
 	}
 	r.note("%d package-level write sites outside initialisers", n)
+	if mapsOnly {
+		if alive == 0 {
+			r.undecided("maps|positive example", token.NoPos, "the matcher no longer recognises any update of a package-level map, not even those made by package initialisers")
+		} else {
+			r.ok("maps|positive example", token.NoPos, "updates of package-level maps inside package initialisers are recognised (the matcher is alive)")
+		}
+		r.ok("maps|census", token.NoPos, "updates of package-level maps outside initialisers examined")
+	}
+}
+
+// holdsLockAt: a sync.Mutex/RWMutex Lock call precedes pos in the source function and no Unlock lies between them
+// (other than a deferred one) — enough for the registry-style critical sections of this code base.
+func holdsLockAt(c *Ctx, fn *ssa.Function, pos token.Pos) bool {
+	held := false
+	for _, b := range fn.Blocks {
+		for _, in := range b.Instrs {
+			if in.Pos() >= pos || !in.Pos().IsValid() {
+				continue
+			}
+			call, ok := in.(*ssa.Call)
+			if !ok {
+				continue
+			}
+			if cal := call.Call.StaticCallee(); cal != nil && cal.Pkg != nil && cal.Pkg.Pkg.Path() == "sync" {
+				switch cal.Name() {
+				case "Lock":
+					held = true
+				case "Unlock":
+					held = false
+				}
+			}
+		}
+	}
+	return held
 }
 
 // ---- R2 registry lock discipline, R3 shared mutable globals, R4 ModuleImpl read-only, R5 Code immutable, R6 builtin types, R8 goroutines ----
